@@ -59,9 +59,11 @@ class _Stdin:
 
     def readline(self):
         self.reads += 1
-        if self.lines:
+        if self.reads > 12:
+            raise StopHere("the operator never answers (the command would wait / spin forever)")
+        if self.lines and self.lines[0] is not None:
             return self.lines.pop(0) + "\n"
-        return ""
+        return ""            # EOF (lines exhausted, or an explicit EOF entry which stays at the head)
 
 
 class _Sys:
@@ -143,8 +145,10 @@ def run(fn, *a, **k):
         return "raised:" + type(e).__name__
 
 
-ANSWERS = ["yes", "YES", "Yes", "y", "no", "n", "N", "", "ye", "yes please", "s", "NO"]
-PINS = ["abcd1234", "abc123", "12345678", "abcd123!", "abcd12345", "pin123º", "", "1234567a", "abcdefgh"]
+EOF = None     # stdin closed: every further readline() returns ""
+ANSWERS = ["yes", "YES", "Yes", "y", "no", "n", "N", "", "ye", "yes please", "s", "NO", EOF]
+PINS = ["abcd1234", "abc123", "12345678", "abcd123!", "abcd12345", "pin123º", "", "1234567a", "abcdefgh", "abcd1234 ", "abcd123\r",
+        " bcd1234"]
 
 
 def alnum_only(pin_bytes):
@@ -192,7 +196,7 @@ FOCUS = ["device state", "operator answers", "pin"]
                                                          ["pin given", "pin typed", "pin given + any-pin", "pin typed + any-pin"][i % 4],
                                                          FOCUS[i // 8]),
             bounds="one input group symbolic per partition (the others at their 'preconditions hold' values): device mode {bootloader, "
-                   "signer, ui-heartbeat, none} x onboard byte 0..255 x echo ok/bad | operator answers: 2 (T: 3) symbolic selections (then 'no') "
+                   "signer, ui-heartbeat, none} x onboard byte 0..255 x echo ok/bad | operator answers: 2 symbolic selections (then 'no') "
                    "from 12 strings (yes / YES / y / no / n / empty / 'ye' / 's' / ...); PIN: symbolic selection from 9 "
                    "strings (valid, too short, digits only, non-alphanumeric, 9 chars, Latin-1 letter, empty); platform / PIN source / "
                    "any-pin are partitions",
@@ -214,7 +218,7 @@ def onboarding(m: int, onb: int, echo: bool, a0: int, a1: int, a2: int, p0: int,
         m, onb, echo = 0, 0, True
     if focus != 1:
         a0, a1, a2 = 0, 4, 4
-    elif not THOROUGH:
+    else:
         a2 = 4
     if focus != 2:
         p0, p1 = 0, 0
@@ -234,6 +238,8 @@ def onboarding(m: int, onb: int, echo: bool, a0: int, a1: int, a2: int, p0: int,
         # --- what did the operator say? the first answer that is a yes or a no decides
         said_yes = False
         for a in answers:
+            if a is EOF:
+                break                   # closed stdin is not a yes
             if a.lower() in ("n", "no"):
                 break
             if a.lower() == "yes":
